@@ -130,6 +130,14 @@ pub fn get_next_chunk(ptr: usize,buf: &[u8]) -> (usize,u32,Option<Vec<u8>>) {
 }
 
 /// Get the ordered physical track-sector list and sector size for any block
+/// track and sector numbers are passed on as bytes, one that does not fit is no valid address
+fn to_u8(x: usize) -> Result<u8,DYNERR> {
+	match u8::try_from(x) {
+		Ok(b) => Ok(b),
+		Err(_) => Err(Box::new(super::Error::SectorAccess))
+	}
+}
+
 fn get_ts_list(addr: Block,kind: &super::DiskKind) -> Result<(Vec<[usize;2]>,usize),DYNERR> {
 	match addr {
 		Block::D13([t,s]) => Ok((vec![[t,s]],256)),
@@ -175,7 +183,7 @@ pub fn read_block<T: WozUnifier>(woz: &mut T,addr: Block) -> Result<Vec<u8>,DYNE
 		return Err(Box::new(super::Error::TrackCountMismatch));
 	}
 	for ts in ts_list {
-		let [track,sector] = [ts[0] as u8,ts[1] as u8];
+		let [track,sector] = [to_u8(ts[0])?,to_u8(ts[1])?];
 		trace!("woz read track {} sector {}",track,sector);
 		match woz.read_sector(track,sector) {
 			Ok(mut v) => ans.append(&mut v),
@@ -210,7 +218,7 @@ pub fn write_block<T: WozUnifier>(woz: &mut T,addr:Block,dat: &[u8]) -> STDRESUL
 	}
 	let mut offset = 0;
 	for ts in ts_list {
-		let [track,sector] = [ts[0] as u8,ts[1] as u8];
+		let [track,sector] = [to_u8(ts[0])?,to_u8(ts[1])?];
 		trace!("woz write track {} sector {}",track,sector);
 		woz.write_sector(&padded[offset..offset+sec_len].to_vec(),track,sector)?;
 		offset += sec_len;
@@ -241,7 +249,7 @@ pub fn cyl_head_to_track<T: WozUnifier>(woz: &T,cyl: usize,head: usize) -> Resul
 pub fn read_sector<T: WozUnifier>(woz: &mut T,cyl: usize,head: usize,sector: usize) -> Result<Vec<u8>,DYNERR> {
 	let track = cyl_head_to_track(woz,cyl,head)?;
 	trace!("woz read track {} sector {}",track,sector);
-	let ans = woz.read_sector(track as u8,sector as u8)?;
+	let ans = woz.read_sector(to_u8(track)?,to_u8(sector)?)?;
 	if ans.len()==524 {
 		return Ok(ans[12..524].to_vec());
 	}
@@ -262,7 +270,7 @@ pub fn write_sector<T: WozUnifier>(woz: &mut T,cyl: usize,head: usize,sector: us
 		_ => super::quantize_block(dat, 256)
 	};
 	trace!("woz write track {} sector {}",track,sector);
-	woz.write_sector(&padded,track as u8,sector as u8)?;
+	woz.write_sector(&padded,to_u8(track)?,to_u8(sector)?)?;
 	return Ok(());
 }
 
